@@ -92,9 +92,15 @@ fn scenario_body(shared: &Arc<Mutex<Shared>>) {
     for c in &sc.pre {
         do_call(&view, shared, 0, Phase::Pre, c);
     }
+    // optionally a clone made by the main task (after the pre-phase, so it may copy a partly
+    // indexed view) that some clients use while others index the original
+    let second = if sc.clone_split { Some(Arc::new(view.clone_view())) } else { None };
     let mut handles = Vec::new();
     for (i, calls) in sc.threads.iter().enumerate() {
-        let view = view.clone();
+        let view = match (&second, i % 2) {
+            (Some(c), 1) => c.clone(),
+            _ => view.clone(),
+        };
         let sh = shared.clone();
         let calls = calls.clone();
         handles.push(shuttle::thread::spawn(move || {
@@ -113,17 +119,77 @@ fn scenario_body(shared: &Arc<Mutex<Shared>>) {
     for c in post_calls(nlines) {
         do_call(&view, shared, 0, Phase::Post, &c);
     }
+    if let Some(c2) = &second {
+        for c in post_calls(nlines) {
+            do_call(c2, shared, 0, Phase::Post, &c);
+        }
+    }
     shared.lock().unwrap().trace.finished_main = true;
 }
 
 /// Execute the planned runs in order and return one outcome per plan. One shuttle `Runner`
 /// serves consecutive runs (its coroutine stacks are reused); a run that panics ends its
 /// runner, and the next run starts a new one.
+thread_local! {
+    /// set once an execution on this OS thread ended in a panic: shuttle's per-thread state may
+    /// then be stale (leaked continuations, a modelled mutex still marked held), so every later
+    /// block is run on a fresh thread
+    static POLLUTED: std::cell::Cell<bool> = const { std::cell::Cell::new(false) };
+}
+
 pub fn execute_block(plans: &Arc<Vec<Plan>>) -> Vec<Outcome> {
+    if POLLUTED.with(|p| p.get()) {
+        let plans2 = plans.clone();
+        let res = std::thread::Builder::new()
+            .stack_size(64 << 20)
+            .spawn(move || {
+                simcore::panics::clear();
+                execute_block(&plans2)
+            })
+            .expect("spawn")
+            .join();
+        if let Ok(v) = res {
+            return v;
+        }
+        return (0..plans.len())
+            .map(|_| Outcome { trace: Trace::default(), panic: Some(PanicInfo { file: "<harness>".into(), line: 0, msg: "worker thread for a block died".into() }) })
+            .collect();
+    }
     let n = plans.len();
     let mut outcomes: Vec<Option<Outcome>> = (0..n).map(|_| None).collect();
     let mut first = 0usize;
+    let mut after_panic = false;
     while first < n {
+        if after_panic {
+            // an execution that ended in a panic leaves shuttle's per-thread state (leaked
+            // continuations, a held modelled mutex) behind; the rest of the block runs on a
+            // fresh OS thread so that later runs cannot trip over it
+            let plans2 = plans.clone();
+            let rest = std::thread::Builder::new()
+                .stack_size(64 << 20)
+                .spawn(move || {
+                    simcore::panics::clear();
+                    let tail: Arc<Vec<Plan>> = Arc::new(plans2[first..].to_vec());
+                    execute_block(&tail)
+                })
+                .expect("spawn")
+                .join();
+            match rest {
+                Ok(v) => {
+                    for (k, o) in v.into_iter().enumerate() {
+                        outcomes[first + k] = Some(o);
+                    }
+                }
+                Err(_) => {
+                    for slot in outcomes.iter_mut().skip(first) {
+                        if slot.is_none() {
+                            *slot = Some(Outcome { trace: Trace::default(), panic: Some(PanicInfo { file: "<harness>".into(), line: 0, msg: "worker thread for the rest of the block died".into() }) });
+                        }
+                    }
+                }
+            }
+            break;
+        }
         let shared = Arc::new(Mutex::new(Shared::default()));
         let scheduler = SimScheduler::new(plans.clone(), first, shared.clone());
         let mut cfg = Config::new();
@@ -158,6 +224,8 @@ pub fn execute_block(plans: &Arc<Vec<Plan>>) -> Vec<Outcome> {
                     line: 0,
                     msg: "panic without hook record".into(),
                 });
+                after_panic = true;
+                POLLUTED.with(|p| p.set(true));
                 match sh.cur {
                     Some(c) => {
                         outcomes[c] = Some(Outcome { trace: std::mem::take(&mut sh.trace), panic: Some(p) });
@@ -224,7 +292,7 @@ pub fn judge(sc: &Scenario, out: &Outcome) -> Verdict {
             return Verdict::Violated(sig, detail);
         }
     }
-    let expected_calls = sc.total_calls() + post_calls(model.line_count() as u32).len();
+    let expected_calls = sc.total_calls() + post_calls(model.line_count() as u32).len() * if sc.clone_split { 2 } else { 1 };
     if out.trace.history.len() != expected_calls {
         return Verdict::Harness(format!(
             "history has {} records, expected {}",
